@@ -31,6 +31,8 @@ HISTORIES = [
     ("std:checkpoint#1", "std", "dump", 1, {}),
     ("std:checkpoint#2", "std", "dump", 2, {}),
     ("std:weights#1", "std", "weights", 1, {}),
+    # a checkpoint completed in the uninformed phase exists when the very first weights file is written
+    ("std:weights#1,after-early-checkpoint", "std", "weights", 1, {"checkpoint_interval": 5}),
     ("std:weights#2", "std", "weights", 2, {}),
     ("std:weights#3", "std", "weights", 3, {}),
     ("ins:checkpoint#1", "ins", "dump", 1, {}),
